@@ -201,3 +201,25 @@ M("c04-span-drops-fire-count", "C04", "C04.KEYS", (TRG, "        SPAN: args[SPAN
 M("c04-other-clock", "C04", "C04.UNITS", (ACX, "self.location_action.record_triggered(self.trigger_context.ts)", "self.location_action.record_triggered(time.time_ns() // 1000)"), (ACX, "import abc\n", "import abc\nimport time\n"))
 R("c04-refactor-local", "C04", (TRG, "        if self.fire_count != -1 and self.fire_count <= self.__stats.fire_count:\n            return False\n",
                                 "        limit = self.fire_count\n        fired = self.__stats.fire_count\n        if limit != -1 and fired >= limit:\n            return False\n"))
+
+# ------------------------------------------------------------------ C05
+VPF = "src/deep/processor/variable_processor.py"
+VSPF = "src/deep/processor/variable_set_processor.py"
+BFSF = "src/deep/processor/bfs/__init__.py"
+M("c05-lifo", "C05", "C05.QUEUE", (BFSF, "pop = queue.pop(0)", "pop = queue.pop()"))
+M("c05-children-front", "C05", "C05.QUEUE", (BFSF, "            queue += pop.children", "            queue = pop.children + queue"))
+M("c05-trunc-flag-ge", "C05", "C05.STR", (VPF, "return string[:max_length], len(string) > max_length", "return string[:max_length], len(string) >= max_length"))
+M("c05-trunc-off-by-one", "C05", "C05.STR", (VPF, "return string[:max_length], len(string) > max_length", "return string[:max_length + 1], len(string) > max_length"))
+M("c05-seq-gt", "C05", "C05.SEQ", (VPF, "        if total >= var_collector.max_collection_size:", "        if total > var_collector.max_collection_size:"))
+M("c05-seq-no-count", "C05", "C05.SEQ", (VPF, "        nodes.append(Node(value=NodeValue(str(total), val_), parent=parent_node))\n        total += 1\n", "        nodes.append(Node(value=NodeValue(str(total), val_), parent=parent_node))\n"))
+M("c05-seq-wrong-limit", "C05", "C05.SEQ", (VPF, "        if total >= var_collector.max_collection_size:", "        if total >= var_collector.max_string_length:"))
+M("c05-depth-gt", "C05", "C05.DEPTH", (VPF, "    if frame_depth + 1 >= var_collector.max_var_depth:", "    if frame_depth > var_collector.max_var_depth:"))
+M("c05-depth-not-incremented", "C05", "C05.DEPTH", (BFSF, "            child._depth = self._depth + 1\n", "            child._depth = self._depth\n"))
+M("c05-budget-continue", "C05", "C05.BUDGET", (BFSF, "        else:\n            return\n", "        else:\n            continue\n"))
+M("c05-budget-inverted", "C05", "C05.BUDGET", (VSPF, "        if self.__var_cache.size > self.__config.max_variables:\n            return False\n        return True", "        if self.__var_cache.size > self.__config.max_variables:\n            return True\n        return True"))
+M("c05-budget-wrong-limit", "C05", "C05.BUDGET", (VSPF, "        if self.__var_cache.size > self.__config.max_variables:", "        if self.__var_cache.size > self.__config.max_string_length:"))
+M("c05-no-budget-check", "C05", "C05.BUDGET", (VSPF, "        if not self.check_var_count():\n            # we have exceeded the var count, so do not continue\n            return False\n", ""))
+M("c05-wire-swapped", "C05", "C05.WIRE", (SNAP, "        config.max_variables = self.location_action.config.get('MAX_VARIABLES', config.DEFAULT_MAX_VARIABLES)", "        config.max_variables = self.location_action.config.get('MAX_VAR_DEPTH', config.DEFAULT_MAX_VARIABLES)"))
+M("c05-collector-default-config", "C05", "C05.WIRE", ("src/deep/processor/frame_collector.py", "processor = VariableSetProcessor(var_lookup, var_cache, self.__source.collection_config)", "processor = VariableSetProcessor(var_lookup, var_cache)"))
+R("c05-deque", "C05", (BFSF, "    queue = [node]\n", "    from collections import deque\n    queue = deque([node])\n"), (BFSF, "pop = queue.pop(0)", "pop = queue.popleft()"), (BFSF, "            queue += pop.children", "            queue.extend(pop.children)"))
+R("c05-budget-ge", "C05", (VSPF, "        if self.__var_cache.size > self.__config.max_variables:", "        if self.__var_cache.size >= self.__config.max_variables:"))
